@@ -158,6 +158,94 @@ func (h *c08Handler) elemField(e ast.Expr, name string) bool {
 	return h.elems[kit.ObjOf(h.info, sel.X)] && cmField(h.info, sel) != nil
 }
 
+// defFunc returns the innermost function of package client whose source range holds o's declaration.
+func (h *c08Handler) defFunc(c *kit.Ctx, o types.Object) *kit.Func {
+	if o == nil {
+		return nil
+	}
+	var best *kit.Func
+	for _, f := range c.P.Funcs("client") {
+		if f.Body == nil {
+			continue
+		}
+		n := f.Node()
+		if n.Pos() <= o.Pos() && o.Pos() < n.End() {
+			if best == nil || (best.Node().Pos() <= n.Pos() && n.End() <= best.Node().End()) {
+				best = f
+			}
+		}
+	}
+	return best
+}
+
+// ctorArgRole classifies `v.ID` for a variable v captured by the handler: if v
+// is the node handed to the constructor of the handler's client state it is the
+// client's own node ("own") as long as v belongs to the iteration that built
+// the client; a loop variable shared by all iterations holds another node by
+// the time the handler runs ("other").  "" = unknown.
+func (h *c08Handler) ctorArgRole(c *kit.Ctx, m *cmModel, v types.Object) string {
+	root := h.f.Root()
+	info := root.Info()
+	if !cmIsLocal(v) || !kit.IsNamedType(v.Type(), dataPkg, "NodeEdge") {
+		return ""
+	}
+	if n := h.f.Node(); n.Pos() <= v.Pos() && v.Pos() < n.End() {
+		return "" // declared inside the handler
+	}
+	isArg := false
+	var at *ast.CallExpr
+	cmOwn(root.Body, func(n ast.Node) bool {
+		as, ok := n.(*ast.AssignStmt)
+		if !ok || len(as.Rhs) != 1 || len(as.Lhs) != 2 || kit.ObjOf(info, as.Lhs[0]) != h.csObj {
+			return true
+		}
+		call, ok := ast.Unparen(as.Rhs[0]).(*ast.CallExpr)
+		if !ok {
+			return true
+		}
+		cf := root.CalleeFunc(call)
+		for _, x := range m.ctors {
+			if x == cf && cf != nil {
+				for _, a := range call.Args {
+					if _, isID := ast.Unparen(a).(*ast.Ident); isID && kit.ObjOf(info, a) == v {
+						isArg, at = true, call
+					}
+				}
+			}
+		}
+		return true
+	})
+	if !isArg {
+		return ""
+	}
+	loop := cmEnclosingRange(root, at)
+	switch {
+	case loop == nil:
+		if cmAssignCount(root, v) == 1 {
+			return "own"
+		}
+		return ""
+	case loop.Body.Pos() <= v.Pos() && v.Pos() < loop.Body.End() && cmAssignCount(root, v) == 1:
+		return "own"
+	case loop.Pos() <= v.Pos() && v.Pos() < loop.End() && cmPerIterationLoopVars(root):
+		return "own"
+	case loop.Pos() <= v.Pos() && v.Pos() < loop.End():
+		return "other"
+	}
+	return ""
+}
+
+// c08BusHelper: a function that talks to the bus (takes a *nats.Conn); it can
+// neither deliver to nor stop the handler's client and is not evaluated inline.
+func c08BusHelper(cf *kit.Func) bool {
+	for _, p := range cf.Params() {
+		if kit.IsNamedType(p.Type(), natsPkg, "Conn") {
+			return true
+		}
+	}
+	return false
+}
+
 func (h *c08Handler) token(e ast.Expr) (int, bool) {
 	return chunkIndexOf(h.f, e, h.chunks)
 }
@@ -203,6 +291,8 @@ type c08Out struct {
 	stopped    map[string]bool // "1" / ""
 	unkRel     []string
 	unkOther   []string
+	opaque     []string // calls on the judged paths that could deliver / stop but were not evaluated
+	shared     string   // explanation when the filter compares with a shared loop variable
 	oob        string
 	overflow   bool
 	sampleExit map[string]kit.Exit
@@ -226,6 +316,107 @@ func c08Run(c *kit.Ctx, m *cmModel, h *c08Handler, sc c08Scn, tomb, ntype string
 	case "ntype":
 		ptype = ntype
 	}
+	st := &kit.Std{F: f}
+	// norm resolves parameters of inlined helpers to the caller's arguments and
+	// single-assignment locals to their definition (`nodeID := chunks[2]`,
+	// `clientID := cs.node.ID`, `origin := points[i].Origin`).
+	var norm func(e ast.Expr, depth int) ast.Expr
+	norm = func(e ast.Expr, depth int) ast.Expr {
+		e = ast.Unparen(st.Resolve(ast.Unparen(e)))
+		id, ok := e.(*ast.Ident)
+		if !ok || depth > 6 {
+			return e
+		}
+		o := kit.ObjOf(info, id)
+		if o == nil || !cmIsLocal(o) || o == h.points || o == h.chunks || o == h.csObj || o == types.Object(h.msg) {
+			return e
+		}
+		df := h.defFunc(c, o)
+		if df == nil || c07ParamOf(df, o) != nil {
+			return e
+		}
+		def := cmSingleDef(df.Root(), o)
+		if def == nil {
+			return e
+		}
+		switch ast.Unparen(def).(type) {
+		case *ast.Ident, *ast.SelectorExpr, *ast.IndexExpr:
+			return norm(def, depth+1)
+		}
+		return e
+	}
+	normObj := func(e ast.Expr) types.Object {
+		x := norm(e, 0)
+		if _, isID := x.(*ast.Ident); !isID {
+			return nil
+		}
+		return kit.ObjOf(info, x)
+	}
+	// isElem: an element of the decoded batch (range value over it, or points[i])
+	isElem := func(e ast.Expr) bool {
+		x := norm(e, 0)
+		switch y := x.(type) {
+		case *ast.IndexExpr:
+			return normObj(y.X) == h.points
+		case *ast.Ident:
+			o := kit.ObjOf(info, y)
+			if h.elems[o] {
+				return true
+			}
+			if df := h.defFunc(c, o); df != nil {
+				found := false
+				cmOwn(df.Body, func(n ast.Node) bool {
+					if rs, ok := n.(*ast.RangeStmt); ok && rs.Value != nil && kit.ObjOf(info, rs.Value) == o && normObj(rs.X) == h.points {
+						found = true
+					}
+					return true
+				})
+				return found
+			}
+		}
+		return false
+	}
+	elemField := func(e ast.Expr, name string) bool {
+		sel, ok := norm(e, 0).(*ast.SelectorExpr)
+		if !ok || sel.Sel.Name != name || cmField(info, sel) == nil {
+			return false
+		}
+		return isElem(sel.X)
+	}
+	// node-id expressions: own = <cs>.<node>.ID; a captured listing element handed to the
+	// constructor of cs is the same node, unless the variable is shared by later iterations
+	idRole := func(e ast.Expr) string {
+		sel, ok := norm(e, 0).(*ast.SelectorExpr)
+		if !ok || sel.Sel.Name != "ID" {
+			return ""
+		}
+		if fv := cmField(info, sel); fv == nil || fv.Name() != "ID" {
+			return ""
+		}
+		if inner, ok := ast.Unparen(sel.X).(*ast.SelectorExpr); ok {
+			if nf := cmField(info, inner); nf == m.csNode && normObj(inner.X) == h.csObj {
+				return "own"
+			}
+			return ""
+		}
+		if v := normObj(sel.X); v != nil {
+			r := h.ctorArgRole(c, m, v)
+			if r == "other" {
+				out.shared = "`" + f.Str(sel) + "` reads `" + v.Name() + "`, a loop variable shared by all iterations of the listing loop: when the handler runs it holds the node listed last, not the client's own node"
+			}
+			return r
+		}
+		return ""
+	}
+	token_ := func(e ast.Expr) (int, bool) {
+		x := norm(e, 0)
+		if ix, ok := x.(*ast.IndexExpr); ok && normObj(ix.X) == h.chunks {
+			if k, ok := kit.ConstInt(info, ix.Index); ok {
+				return int(k), true
+			}
+		}
+		return 0, false
+	}
 	role := func(e ast.Expr) string {
 		e = ast.Unparen(e)
 		if s, ok := kit.ConstString(info, e); ok {
@@ -235,16 +426,17 @@ func c08Run(c *kit.Ctx, m *cmModel, h *c08Handler, sc c08Scn, tomb, ntype string
 			return "const:" + s
 		}
 		switch {
-		case h.elemField(e, "Origin"):
+		case elemField(e, "Origin"):
 			return "origin"
-		case h.elemField(e, "Type"):
+		case elemField(e, "Type"):
 			return "ptype"
-		case h.elemField(e, "Value"):
+		case elemField(e, "Value"):
 			return "pvalue"
-		case m.isOwnID(info, e, h.csObj):
-			return "own"
 		}
-		if k, ok := h.token(e); ok {
+		if r := idRole(e); r != "" {
+			return r
+		}
+		if k, ok := token_(e); ok {
 			switch k {
 			case 1:
 				return "anc"
@@ -256,7 +448,7 @@ func c08Run(c *kit.Ctx, m *cmModel, h *c08Handler, sc c08Scn, tomb, ntype string
 	}
 	checkOOB := func(n ast.Node) {
 		cmOwn(n, func(x ast.Node) bool {
-			if ix, ok := x.(*ast.IndexExpr); ok && kit.ObjOf(info, ix.X) == h.chunks {
+			if ix, ok := x.(*ast.IndexExpr); ok && normObj(ix.X) == h.chunks {
 				if k, ok := kit.ConstInt(info, ix.Index); ok && int(k) >= sc.nChunks && out.oob == "" {
 					out.oob = fmt.Sprintf("`%s` at %s is evaluated for a subject of %d tokens", f.Str(ix), f.At(ix), sc.nChunks)
 				}
@@ -264,7 +456,7 @@ func c08Run(c *kit.Ctx, m *cmModel, h *c08Handler, sc c08Scn, tomb, ntype string
 			return true
 		})
 	}
-	st := &kit.Std{F: f}
+	st.ShouldInline = func(cf *kit.Func, _ *ast.CallExpr) bool { return !c08BusHelper(cf) }
 	st.Fold = func(e ast.Expr, s kit.S) (bool, bool) {
 		checkOOB(e)
 		x, y, op, ok := kit.CmpAtom(e)
@@ -277,15 +469,11 @@ func c08Run(c *kit.Ctx, m *cmModel, h *c08Handler, sc c08Scn, tomb, ntype string
 			if !ok || !cmIsBuiltin(info, call, "len") || len(call.Args) != 1 {
 				return "", false
 			}
-			if kit.ObjOf(info, call.Args[0]) == h.chunks {
-				if _, isID := ast.Unparen(call.Args[0]).(*ast.Ident); isID {
-					return "chunks", true
-				}
+			if o := normObj(call.Args[0]); o != nil && o == h.chunks {
+				return "chunks", true
 			}
-			if kit.ObjOf(info, call.Args[0]) == h.points {
-				if _, isID := ast.Unparen(call.Args[0]).(*ast.Ident); isID {
-					return "points", true
-				}
+			if o := normObj(call.Args[0]); o != nil && o == h.points {
+				return "points", true
 			}
 			if role(call.Args[0]) == "origin" {
 				return "origin", true
@@ -334,7 +522,7 @@ func c08Run(c *kit.Ctx, m *cmModel, h *c08Handler, sc c08Scn, tomb, ntype string
 		if op == token.EQL || op == token.NEQ {
 			for _, pr := range [][2]ast.Expr{{x, y}, {y, x}} {
 				if kit.IsNilIdent(info, pr[1]) {
-					if fv, base := cmFieldOn(info, pr[0]); fv == m.csClient && base == h.csObj {
+					if sel, ok := ast.Unparen(pr[0]).(*ast.SelectorExpr); ok && cmField(info, sel) == m.csClient && normObj(sel.X) == h.csObj {
 						return op == token.NEQ, true
 					}
 				}
@@ -352,6 +540,17 @@ func c08Run(c *kit.Ctx, m *cmModel, h *c08Handler, sc c08Scn, tomb, ntype string
 			val, known = true, true // the subscription subject is up.<own id>.>
 		case has("origin", "own"):
 			val, known = sc.c, true
+		case has("origin", "other"):
+			// the id of another node: cannot equal an empty origin nor the client's own id
+			if sc.a || sc.c {
+				val, known = false, true
+			}
+		case has("subj", "other"):
+			if sc.b {
+				val, known = false, true
+			}
+		case has("anc", "other"):
+			val, known = false, true
 		case rx == "ptype" && strings.HasPrefix(ry, "const:"):
 			val, known = ptype == strings.TrimPrefix(ry, "const:"), true
 		case ry == "ptype" && strings.HasPrefix(rx, "const:"):
@@ -388,8 +587,26 @@ func c08Run(c *kit.Ctx, m *cmModel, h *c08Handler, sc c08Scn, tomb, ntype string
 		}
 		return false, false
 	}
+	relatedN := func(e ast.Expr) bool {
+		rel := h.related(e)
+		ast.Inspect(e, func(n ast.Node) bool {
+			if id, ok := n.(*ast.Ident); ok && !rel {
+				if o := normObj(id); o != nil && (o == h.points || o == h.chunks || o == h.csObj || o == types.Object(h.msg)) {
+					rel = true
+				}
+				if _, isTok := token_(id); isTok {
+					rel = true
+				}
+				if isElem(id) {
+					rel = true
+				}
+			}
+			return !rel
+		})
+		return rel
+	}
 	st.Eval.OnUnknown = func(e ast.Expr) {
-		if h.related(e) {
+		if relatedN(e) {
 			out.unkRel = append(out.unkRel, f.Str(e))
 		} else {
 			out.unkOther = append(out.unkOther, f.Str(e))
@@ -413,28 +630,89 @@ func c08Run(c *kit.Ctx, m *cmModel, h *c08Handler, sc c08Scn, tomb, ntype string
 		}
 		return s.Set(k, "2+")
 	}
+	clientOf := func(x ast.Expr) bool {
+		sel, ok := ast.Unparen(norm(x, 0)).(*ast.SelectorExpr)
+		return ok && cmField(info, sel) == m.csClient && normObj(sel.X) == h.csObj
+	}
+	relevantType := func(t types.Type) bool {
+		if t == nil {
+			return false
+		}
+		if m.isCS(t) || types.Identical(t, m.iface) || kit.IsNamedType(t, natsPkg, "Msg") {
+			return true
+		}
+		if _, isFn := t.Underlying().(*types.Signature); isFn {
+			return true
+		}
+		if sl, ok := t.Underlying().(*types.Slice); ok && kit.IsNamedType(sl.Elem(), dataPkg, "Point") {
+			return true
+		}
+		return false
+	}
 	st.OnCall = func(call *ast.CallExpr, n ast.Node, s kit.S) []kit.S {
-		if x, ok := m.ifaceCall(info, call, "Points"); ok {
-			if _, base := cmFieldOn(info, x); base == h.csObj {
-				return []kit.S{inc(s, "dl")}
-			}
+		if _, isGo := n.(*ast.GoStmt); isGo {
+			return nil
 		}
-		if x, ok := m.ifaceCall(info, call, "EdgePoints"); ok {
-			if _, base := cmFieldOn(info, x); base == h.csObj {
-				return []kit.S{inc(s, "el")}
-			}
+		if x, ok := m.ifaceCall(info, call, "Points"); ok && clientOf(x) {
+			return []kit.S{inc(s, "dl")}
 		}
-		if rx, ok := m.isStopCall(f, call); ok && kit.ObjOf(info, rx) == h.csObj {
+		if x, ok := m.ifaceCall(info, call, "EdgePoints"); ok && clientOf(x) {
+			return []kit.S{inc(s, "el")}
+		}
+		if rx, ok := m.isStopCall(st.Cur(), call); ok && normObj(rx) == h.csObj {
 			return []kit.S{s.Set("stopped", "1")}
+		}
+		// a call that could deliver or stop but is not evaluated inline
+		if !cmIsLibraryCall(info, call) {
+			cf := st.Cur().CalleeFunc(call)
+			if cf == nil || cf.Body == nil || cf.Pkg != f.Pkg || c08BusHelper(cf) {
+				rel := false
+				for _, a := range call.Args {
+					if relevantType(info.TypeOf(a)) {
+						rel = true
+					}
+				}
+				if sel, ok := ast.Unparen(call.Fun).(*ast.SelectorExpr); ok {
+					if sn := info.Selections[sel]; sn != nil && relevantType(info.TypeOf(sel.X)) {
+						rel = true
+					}
+				}
+				if cf == nil {
+					rel = true // a function value
+				}
+				if rel {
+					out.opaque = append(out.opaque, st.Cur().Str(call.Fun))
+				}
+			}
 		}
 		return nil
 	}
 	st.OnNode = func(n ast.Node, s kit.S) []kit.S {
 		checkOOB(n)
+		// boolean locals assigned from a condition over the atoms (`ownNode := nodeID == clientID`)
+		if as, ok := n.(*ast.AssignStmt); ok && len(as.Lhs) == 1 && len(as.Rhs) == 1 {
+			if o := kit.ObjOf(info, as.Lhs[0]); o != nil && cmIsLocal(o) {
+				if b, ok := o.Type().Underlying().(*types.Basic); ok && b.Info()&types.IsBoolean != 0 {
+					if _, isCall := ast.Unparen(as.Rhs[0]).(*ast.CallExpr); !isCall && !s.Has("v:"+kit.VarID(o)) {
+						ts, fs := st.Eval.Eval(as.Rhs[0], s)
+						var res []kit.S
+						for _, x := range ts {
+							res = append(res, x.Set("v:"+kit.VarID(o), "true"))
+						}
+						for _, x := range fs {
+							res = append(res, x.Set("v:"+kit.VarID(o), "false"))
+						}
+						if len(res) > 0 {
+							return res
+						}
+					}
+				}
+			}
+		}
 		return []kit.S{s}
 	}
 	st.OnBranch = func(br kit.Branch, s kit.S) (t, fl []kit.S, handled bool) {
-		if br.Kind != kit.BrRange || kit.ObjOf(info, br.Range.X) != h.points {
+		if br.Kind != kit.BrRange || normObj(br.Range.X) != h.points {
 			return nil, nil, false
 		}
 		k := fmt.Sprintf("it%d", br.Range.Pos())
@@ -460,6 +738,12 @@ func c08Run(c *kit.Ctx, m *cmModel, h *c08Handler, sc c08Scn, tomb, ntype string
 		out.sampleExit["dl="+e.State.Get("dl")] = e
 		out.sampleExit["el="+e.State.Get("el")] = e
 		out.sampleExit["st="+e.State.Get("stopped")] = e
+	}
+	if out.shared != "" {
+		out.unkRel = nil // the forks come from comparing with the shared variable, which is the defect itself
+	}
+	for _, q := range uniqStrings(out.opaque) {
+		out.unkRel = append(out.unkRel, "call of `"+q+"` (not evaluated)")
 	}
 	return out
 }
@@ -502,6 +786,9 @@ func c08Verdict(o *kit.Ob, out *c08Out, okCond bool, okMsg, badMsg string, sampl
 }
 
 func c08Unk(out *c08Out) string {
+	if out.shared != "" {
+		return "; " + out.shared
+	}
 	if len(out.unkOther) == 0 {
 		return ""
 	}
@@ -580,7 +867,7 @@ func c08Args(h *c08Handler, o *kit.Ob, call *ast.CallExpr, toks []int) {
 		k, ok := h.token(call.Args[i])
 		switch {
 		case !ok:
-			o.Violation("argument %d `%s` is not a token of the message subject (expected token %d)", i+1, f.Str(call.Args[i]), want)
+			o.Undecided("cannot tell which token of the message subject argument %d `%s` is (expected token %d)", i+1, f.Str(call.Args[i]), want)
 			return
 		case k != want:
 			o.Violation("argument %d `%s` is subject token %d, expected token %d (up.<ancestor>.<node>[.<parent>])", i+1, f.Str(call.Args[i]), k, want)
@@ -634,9 +921,27 @@ func c08R2(c *kit.Ctx, m *cmModel, r *kit.Rule, h *c08Handler) {
 	}
 	// (1) ordinary edge points from a foreign author are delivered exactly once
 	o := r.Ob(f, site, "ordinary edge points", "a foreign batch on a four-token subject is delivered exactly once through EdgePoints")
+	viaHelper := ""
 	if h.edgCall == nil {
+		// the delivery may sit in a function of the package the handler calls (evaluated inline)
+		for _, call := range f.AllCalls(false) {
+			if cf := f.CalleeFunc(call); cf != nil && cf.Body != nil && cf.Pkg == f.Pkg {
+				for _, c2 := range cf.AllCalls(true) {
+					if _, ok := m.ifaceCall(cf.Info(), c2, "EdgePoints"); ok {
+						viaHelper = cf.Name
+					}
+				}
+			} else if cf == nil && !cmIsLibraryCall(h.info, call) {
+				viaHelper = "?" + f.Str(call.Fun)
+			}
+		}
+	}
+	switch {
+	case h.edgCall == nil && viaHelper == "":
 		o.Violation("the handler never calls EdgePoints on its client: edge points of the subtree are not delivered")
-	} else {
+	case h.edgCall == nil && strings.HasPrefix(viaHelper, "?"):
+		o.Undecided("no EdgePoints call found; the handler calls the function value `%s`", viaHelper[1:])
+	default:
 		bad, undec := "", ""
 		var badOut *c08Out
 		for _, v := range c08Valuations {
@@ -685,9 +990,12 @@ func c08R2(c *kit.Ctx, m *cmModel, r *kit.Rule, h *c08Handler) {
 	}
 	// (3) arguments
 	oa := r.Ob(f, site, "EdgePoints arguments", "EdgePoints(subject token 2, subject token 3, the decoded slice unchanged)")
-	if h.edgCall != nil {
+	switch {
+	case h.edgCall != nil:
 		c08Args(h, oa, h.edgCall, []int{2, 3})
-	} else {
+	case viaHelper != "":
+		oa.Undecided("the EdgePoints call is not in the handler itself (%s); its arguments are not traced", strings.TrimPrefix(viaHelper, "?"))
+	default:
 		oa.Violation("no EdgePoints call on the handler's client")
 	}
 	// (4) arity
@@ -790,9 +1098,43 @@ func c08R3(c *kit.Ctx, m *cmModel, r *kit.Rule, h *c08Handler) {
 	case pre != "up." || post != ".>":
 		o.Violation("subscription subject is %q + id + %q, expected \"up.\" + id + \".>\": %s", pre, post,
 			map[bool]string{true: "only three-token subjects match, the edge points of the subtree (four tokens) are lost", false: "the rebroadcast of the subtree is published on up.<id>.…"}[pre == "up." && post == ".*"])
-	case !m.isOwnID(info, mid, h.csObj):
-		o.Violation("the subscription is made for `%s`, but the filter and the delivery use the node id of client state `%s`", of.Str(mid), h.csObj.Name())
 	default:
-		o.OK("%s", of.Str(subj))
+		// resolve single-assignment locals (`id := cs.node.ID`)
+		for i := 0; i < 4; i++ {
+			if _, isID := ast.Unparen(mid).(*ast.Ident); !isID {
+				break
+			}
+			vo := kit.ObjOf(info, mid)
+			if !cmIsLocal(vo) {
+				break
+			}
+			def := cmSingleDef(of.Root(), vo)
+			if def == nil {
+				break
+			}
+			mid = ast.Unparen(def)
+		}
+		sel, isSel := ast.Unparen(mid).(*ast.SelectorExpr)
+		switch {
+		case m.isOwnID(info, mid, h.csObj):
+			o.OK("%s", of.Str(subj))
+		case isSel && sel.Sel.Name == "ID" && h.ctorArgRole(c, m, kit.ObjOf(info, sel.X)) != "":
+			// the listing element handed to the constructor of this client state, read synchronously in the same iteration
+			o.OK("%s (`%s` is the node the client state was constructed from)", of.Str(subj), of.Str(sel.X))
+		case isSel && cmField(info, sel) != nil && func() bool {
+			inner, ok := ast.Unparen(sel.X).(*ast.SelectorExpr)
+			return ok && cmField(info, inner) == m.csNode
+		}():
+			o.Violation("the subscription is made for `%s`, another field of the client's node than its id", of.Str(mid))
+		case isSel && cmField(info, sel) != nil && cmField(info, sel).Name() == "ID" && m.isCS(info.TypeOf(func() ast.Expr {
+			if inner, ok := ast.Unparen(sel.X).(*ast.SelectorExpr); ok {
+				return inner.X
+			}
+			return sel.X
+		}())):
+			o.Violation("the subscription is made for `%s`, but the filter and the delivery use the node id of client state `%s`", of.Str(mid), h.csObj.Name())
+		default:
+			o.Undecided("cannot tell whether `%s` is the id of the node of client state `%s`", of.Str(mid), h.csObj.Name())
+		}
 	}
 }
